@@ -19,7 +19,7 @@ RULE = ("zoo surfaces (triangle, quad, mixed, polygon; closed or bordered; genus
         "subdivide_triangles_6; split_cell_as_fan, split_tet_from_face_center; split_edge), connectivity queried before editing or not; "
         "non-trivial = non-triangular input or >= 2 operations; distinct = (mesh, operation sequence, pre-query) hash")
 REQUIRED = {"result": 600, "counts": 150, "newverts": 100, "input_state": 150, "result_conn": 1000}
-CASE_TIMEOUT = {"quick": 60.0, "thorough": 900.0}
+CASE_TIMEOUT = {"quick": 30.0, "thorough": 900.0}
 ASSUMPTIONS = ["documented counts: triangulate quad -> 2 triangles, n-gon (n>=5) -> n-fan with one new vertex; fan: +1 vertex, n triangles; "
                "1-to-4: V+E, 2E+3F, 4F; 1-to-3 quads: V+E+F, 2E+3F, 3F; 1-to-6: V+E+F, 2E+6F, 6F; cell fan: +1 vertex +3 cells; "
                "face-centre split: +1 vertex, +2 cells per incident cell",
